@@ -132,6 +132,13 @@ def check_automaton(rep, d, starts, labels, L, inp, multiples=(1, 2, 3), full=Tr
         wantall = ["".join(w) for n in range(L + 1) for w, _ in M.paths(s, n)]
         if all(len(x) == 1 for x in labels) and sorted(allw) != sorted(wantall):
             rep.fail("enumerate_words", f"state {s!r}", {**inp, "state": repr(s)}); return False
+        # ... and where each listed word ends (with_states=True), the empty word included, from every start state
+        if all(len(x) == 1 for x in labels):
+            allws = sorted(((w_, e_) for w_, e_ in F.enumerate_words(L, start_vertex=s, with_states=True)), key=repr)
+            wantws = sorted((("".join(w_), e_) for n in range(L + 1) for w_, e_ in M.paths(s, n)), key=repr)
+            if allws != wantws:
+                bad = [x for x in allws if x not in wantws][:2]
+                rep.fail("enumerate_words", f"from state {s!r} with_states=True: listed (word, end state) pairs {bad} disagree with the walk", {**inp, "state": repr(s)}); return False
     if not full:
         return True
     # --- k-multiple automaton
